@@ -450,7 +450,7 @@ func c04cases(thorough bool) []c04case {
 func C04(tier string) int {
 	res := NewResult("C04", tier, "exploration")
 	cases := c04cases(res.Thorough())
-	res.Rule = fmt.Sprintf("each handled inbox activity type with every sequence of 1..%d objects / targets / actors from per-type alphabets (IRI and embedded, owned and foreign, Collection / OrderedCollection / non-collection targets, absent / unordered / ordered likes and shares, missing documents), OnFollow in {nothing, accept, reject}, Follow object in {this actor, another local actor, remote, list, embedded}, x callback configuration {none, wrapped, wrapped failing, 'other' override}, plus single-hook configurations (exactly one other type X wrapped / overridden, for all 11 X): %d requests; a reference model written from the documentation is applied to the initial state and diffed against the real final state; deliveries and callback order are compared too; plus every ordered pair of single-valued activities (up to 4 per type and OnFollow mode; thorough: all) delivered one after the other to ONE application (the application's OnFollow mode and callback configuration - none / every type overridden by 'other' functions - may change between the two) with the model applied step by step, and single faults inside the default effect", map[bool]int{false: 2, true: 3}[res.Thorough()], len(cases))
+	res.Rule = fmt.Sprintf("each handled inbox activity type with every sequence of 1..%d objects / targets / actors from per-type alphabets (IRI and embedded, owned and foreign, Collection / OrderedCollection / non-collection targets, absent / unordered / ordered likes and shares, missing documents), OnFollow in {nothing, accept, reject}, Follow object in {this actor, another local actor, remote, list, embedded}, x callback configuration {none, wrapped, wrapped failing, 'other' override}, plus single-hook configurations (exactly one other type X wrapped / overridden, for all 11 X): %d requests; a reference model written from the documentation is applied to the initial state and diffed against the real final state; deliveries and callback order are compared too; plus every ordered pair of single-valued activities (up to 4 per type and OnFollow mode; thorough: all) delivered one after the other to ONE application (the application's OnFollow mode and callback configuration - none / every type overridden by 'other' functions - may change between the two) with the model applied step by step, every triple over a reduced alphabet (the first case - Add / Remove: two - of each type and OnFollow mode), and single faults inside the default effect", map[bool]int{false: 2, true: 3}[res.Thorough()], len(cases))
 	res.Assumptions = []string{"order among several followers added by one Follow is not asserted", "where a later object/target makes the effect fail, the effect on earlier ones (list order) stays, as the code does; the statement does not forbid it",
 		"top-level @context of stored values is not compared (C01)"}
 	var mu sync.Mutex
@@ -615,6 +615,19 @@ func C04(tier string) int {
 		perType[k]++
 		hcases = append(hcases, c)
 	}
+	red := make([]bool, len(hcases))
+	redSeen := map[string]int{}
+	for i, c := range hcases {
+		k := fmt.Sprintf("%s|%d", c.typ, c.onFollow)
+		lim := 1
+		if c.typ == "Add" || c.typ == "Remove" || res.Thorough() {
+			lim = 2
+		}
+		if c.cb == ap.CBNone && redSeen[k] < lim {
+			redSeen[k]++
+			red[i] = true
+		}
+	}
 	var hmu sync.Mutex
 	nHist := 0
 	parallel(len(hcases), func(i int) {
@@ -625,17 +638,27 @@ func C04(tier string) int {
 			rep       M
 		}
 		var hvs []hv
-		for _, c2 := range hcases {
-			// the application's configuration (OnFollow, hooks) may CHANGE between the two requests: the
+		runSeq := func(seq []c04case) {
+			// the application's configuration (OnFollow, hooks) may CHANGE between the requests: the
 			// library asks for it on every request and must not remember an earlier answer
 			a := (&Scenario{Kind: ap.Both, Tweak: func(a *ap.App) { c04world(a) }}).World()
 			ref := RefOf(a)
-			second := c2
-			b2 := deepCopy(c2.body).(map[string]interface{})
-			b2["id"] = RAct2
-			second.body = b2
-			names := []string{c1.typ + " " + shortJSON(c1.body), c2.typ + " " + shortJSON(b2)}
-			for step, c := range []c04case{c1, second} {
+			var names []string
+			var steps []c04case
+			for i, c := range seq {
+				if i > 0 {
+					b := deepCopy(c.body).(map[string]interface{})
+					b["id"] = RAct2
+					if i > 1 {
+						b["id"] = fmt.Sprintf("%s-%d", RAct2, i)
+					}
+					c.body = b
+				}
+				steps = append(steps, c)
+				names = append(names, c.typ+" "+shortJSON(c.body))
+			}
+			prevTyp := seq[0].typ
+			for step, c := range steps {
 				a.OnFollow, a.Callbacks = c.onFollow, c.cb
 				fail, _ := modelInbox(ref, a, c)
 				sc := &Scenario{Name: "c04/history", Kind: ap.Both, Entry: "PostInbox", URL: inbox(Alice), Body: c.body}
@@ -645,16 +668,21 @@ func C04(tier string) int {
 				}
 				rep := M{"check": "C04", "part": "history", "requests": names}
 				if (out.Err != nil || len(out.W.Statuses) == 0 || out.W.Statuses[0] != 200) != fail {
-					hvs = append(hvs, hv{fmt.Sprintf("history|outcome|%s-after-%s", c.typ, c1.typ), fmt.Sprintf("%v: request %d: err=%v statuses=%v, the reference model says fail=%v", names, step+1, out.Err, out.W.Statuses, fail), rep})
+					hvs = append(hvs, hv{fmt.Sprintf("history|outcome|%s-after-%s", c.typ, prevTyp), fmt.Sprintf("%v: request %d: err=%v statuses=%v, the reference model says fail=%v", names, step+1, out.Err, out.W.Statuses, fail), rep})
 					break
 				}
 				unordered := map[string]bool(nil)
-				if c1.typ == "Follow" || c1.typ == "Accept" || c.typ == "Follow" || c.typ == "Accept" {
-					unordered = map[string]bool{"items": true}
+				for _, x := range seq {
+					if x.typ == "Follow" || x.typ == "Accept" {
+						unordered = map[string]bool{"items": true}
+					}
 				}
 				if d := ref.Diff(a, unordered); len(d) > 0 {
-					hvs = append(hvs, hv{fmt.Sprintf("history|state|%s|%s-after-%s", diffClass(d[0]), c.typ, c1.typ), fmt.Sprintf("%v: after request %d: %s", names, step+1, d[0]), rep})
+					hvs = append(hvs, hv{fmt.Sprintf("history|state|%s|%s-after-%s", diffClass(d[0]), c.typ, prevTyp), fmt.Sprintf("%v: after request %d: %s", names, step+1, d[0]), rep})
 					break
+				}
+				if step > 0 {
+					prevTyp = steps[step].typ
 				}
 			}
 			if ch := a.HeldPayloadsChanged(); len(ch) > 0 {
@@ -662,6 +690,23 @@ func C04(tier string) int {
 			}
 			n++
 		}
+		for _, c2 := range hcases {
+			runSeq([]c04case{c1, c2})
+		}
+		// every triple over a reduced alphabet (the first case of each type and OnFollow mode, plain callbacks)
+		if red[i] {
+			for j, c2 := range hcases {
+				if !red[j] {
+					continue
+				}
+				for k, c3 := range hcases {
+					if red[k] {
+						runSeq([]c04case{c1, c2, c3})
+					}
+				}
+			}
+		}
+		_ = 0
 		hmu.Lock()
 		defer hmu.Unlock()
 		nHist += n
@@ -670,7 +715,7 @@ func C04(tier string) int {
 		}
 	})
 	res.Evaluations += nHist
-	res.Extra["two_request_histories"] = nHist
+	res.Extra["request_histories"] = nHist
 	// ---- single faults inside the default effect: the wrapped callback and any automatic
 	// response must not happen once a step of the default effect failed ----
 	seenType := map[string]int{}
